@@ -1,7 +1,144 @@
 import ASV.Drv.J
+import ASV.Spec.Modules
 namespace ASV.Drv.C14
-open Lean ASV ASV.Drv
+open Lean ASV ASV.Drv ASV.Modules
+abbrev Mod := ASV.Modules.Module
 
-def handle (_j : Json) : R Json := throw "C14: no model yet"
+/-- `[label, [subtypes], start, end]` -/
+def domainOfJson (j : Json) : R Domain := do
+  return ⟨← asStr (← idx j 0), ← listOf asStr (← idx j 1), ← asInt (← idx j 2), ← asInt (← idx j 3)⟩
+
+/-- `[label, [subtypes], start, end, locus]` -/
+def compOfJson (j : Json) : R Comp := do
+  return ⟨← asStr (← idx j 0), ← listOf asStr (← idx j 1), ← asInt (← idx j 2), ← asInt (← idx j 3),
+          ← asStr (← idx j 4)⟩
+
+def compToJson (c : Comp) : Json :=
+  jArr [Json.str c.label, jStrs c.subtypes, toJson c.start, toJson c.stop, Json.str c.locus]
+
+def optComp : Option Comp → Json
+  | some c => compToJson c
+  | none => Json.null
+
+def errStr : Err → String
+  | .incompatible => "value-error:IncompatibleComponentError"
+  | .assertion => "assertion"
+  | .valueError => "value-error"
+  | .indexError => "IndexError"
+
+def moduleToJson (m : Mod) : Json :=
+  jObj [("comps", jArr (m.components.map compToJson)),
+        ("first", toJson m.firstInCds),
+        ("starter", optComp m.starter), ("loader", optComp m.loader),
+        ("mods", jArr (m.modifications.map compToJson)),
+        ("carrier", optComp m.carrier), ("end", optComp m.end_),
+        ("others", jArr (m.others.map compToJson)),
+        ("unamb", toJson m.unambiguous),
+        ("sil", toJson (m.starter.isSome && m.starterIsLoader)),
+        ("complete", toJson m.isComplete), ("starter_module", toJson m.isStarterModule),
+        ("termination", toJson m.isTerminationModule), ("iterative", toJson m.isIterative),
+        ("trans_at", toJson m.isTransAt), ("pks", toJson m.isPks), ("nrps", toJson m.isNrps),
+        ("terminated", toJson m.isTerminated), ("coa", toJson m.isCoaLigase),
+        ("reload", toJson (match ASV.Modules.Module.fromJson m.toJson with | .ok m' => decide (m' = m) | .error _ => false))]
+
+def modulesToJson (ms : List Mod) : Json := jArr (ms.map moduleToJson)
+
+/-- an implementation module as the spec sees it: components + first flag -/
+def implModule (j : Json) : R (List Comp × Bool) := do
+  return (← listOf compOfJson (← fld j "comps"), ← boolF j "first")
+
+/-- the spec's values for one (implementation) module -/
+def specOfModule (m : List Comp × Bool) : Json :=
+  jObj [("layout", toJson (Spec.layout m.1)), ("layout_idx", toJson (Spec.layoutIdx m.1)),
+        ("complete", toJson (Spec.complete m.1 m.2)),
+        ("starter_module", toJson (Spec.starterModule m.1 m.2)),
+        ("termination", toJson (Spec.terminationModule m.1)),
+        ("iterative", toJson (Spec.iterative m.1)),
+        ("trans_at", toJson (Spec.transAt m.1)),
+        ("pks", toJson (Spec.isPks m.1)), ("nrps", toJson (Spec.isNrps m.1))]
+
+def exceptJson (r : Except Err Json) : Json :=
+  match r with
+  | .ok j => j
+  | .error e => jObj [("err", Json.str (errStr e))]
+
+def handleBuild (j : Json) : R Json := do
+  let ds ← listOf domainOfJson (← fld j "domains")
+  let name ← strF j "name"
+  let model := exceptJson ((build ds name).map fun ms => jObj [("modules", modulesToJson ms)])
+  let impl ← listOf implModule (fldD j "impl_modules" (jArr []))
+  return jObj [("model", model),
+               ("spec", jObj [("partition", toJson (Spec.partition ds name impl)),
+                              ("modules", jArr (impl.map specOfModule))])]
+
+def handleReplay (j : Json) : R Json := do
+  let comps ← listOf compOfJson (← fld j "comps")
+  let first : Option Bool := (boolF j "first").toOption
+  let mj : ModuleJson := ⟨comps.map Comp.toJson, first⟩
+  let model := exceptJson ((ASV.Modules.Module.fromJson mj).map fun m => jObj [("modules", modulesToJson [m])])
+  let impl ← listOf implModule (fldD j "impl_modules" (jArr []))
+  return jObj [("model", model), ("spec", jObj [("modules", jArr (impl.map specOfModule))])]
+
+structure GeneJ where
+  name : String
+  strand : Int
+  region : Nat
+  domains : List Domain
+  motifs : Bool
+
+def geneOfJson (j : Json) : R Gene := do
+  return ⟨← strF j "name", ← intF j "strand", (natF j "region").toOption.getD 0,
+          ← listOf domainOfJson (← fld j "domains"), boolFD j "motifs" false⟩
+
+def handlePair (j : Json) : R Json := do
+  let a ← geneOfJson (← fld j "a")      -- previous
+  let b ← geneOfJson (← fld j "b")      -- current
+  let model : Except Err Json := do
+    let prev ← build a.domains a.name
+    let cur ← build b.domains b.name
+    let r ← combine b.strand a.strand cur prev
+    pure (jObj [("merged", match r.merged with | some m => moduleToJson m | none => Json.null),
+                ("prev", modulesToJson r.prev), ("cur", modulesToJson r.cur),
+                ("prev0", modulesToJson prev), ("cur0", modulesToJson cur)])
+  -- spec on the implementation's lists
+  let im (k : String) : R (List (List Comp × Bool)) := listOf implModule (fldD j k (jArr []))
+  let prev0 ← im "impl_prev0"
+  let cur0 ← im "impl_cur0"
+  let prev1 ← im "impl_prev"
+  let cur1 ← im "impl_cur"
+  let merged : Option (List Comp × Bool) ← match fldD j "impl_merged" Json.null with
+    | .null => pure none
+    | x => do pure (some (← implModule x))
+  return jObj [("model", exceptJson model),
+               ("spec", jObj [("combine", toJson (Spec.combineOK (a.strand == b.strand) prev0 cur0 prev1 cur1 merged)),
+                              ("merged", match merged with | some m => specOfModule m | none => Json.null)])]
+
+def handleChain (j : Json) : R Json := do
+  let genes ← listOf geneOfJson (← fld j "genes")
+  let model := exceptJson ((chain genes).map fun rs =>
+    jObj [("genes", jArr (rs.map fun r => jObj [("name", Json.str r.name), ("modules", modulesToJson r.modules)]))])
+  let impl ← listOf (fun g => listOf implModule g) (fldD j "impl_genes" (jArr []))
+  return jObj [("model", model),
+               ("spec", jObj [("genes", jArr (impl.map fun ms => jArr (ms.map specOfModule)))])]
+
+def handleLabel (j : Json) : R Json := do
+  let label ← strF j "label"
+  let subs ← listOf asStr (fldD j "subtypes" (jArr []))
+  let c : Comp := ⟨label, subs, 0, 1, "x"⟩
+  return jObj [("model", jObj [
+    ("classification", match classify label with | some k => Json.str k | none => Json.null),
+    ("flags", jArr ([c.isAdenylation, c.isAcyltransferase, c.isCoaLigase, c.isCondensation, c.isStarter,
+                     c.isLoader, c.isModification, c.isCarrierProtein, c.isEnd, c.isIgnored, c.isSpecial,
+                     c.isFusedStarter, c.isPksSpecific, c.isNrpsSpecific].map fun (b : Bool) => toJson b)),
+    ("subtype", match c.subtype with | some s => Json.str s | none => Json.null)])]
+
+def handle (j : Json) : R Json := do
+  match (← strF j "kind") with
+  | "build" => handleBuild j
+  | "replay" => handleReplay j
+  | "pair" => handlePair j
+  | "chain" => handleChain j
+  | "label" => handleLabel j
+  | k => throw s!"C14: unknown kind {k}"
 
 end ASV.Drv.C14
